@@ -7,6 +7,5 @@ NA = {
  'C07': 'cancellation at every scheduling point is a schedule quantifier; the error half lives in thread spawn/join code neither tool can take.',
  'C11': 'floating-point DSP against mathematical definitions within rounding bounds: Verus has no float arithmetic theory, Kani bit-precise floats cannot carry a 200-term dot product or an FFT, AVX path is core::arch intrinsics.',
  'C18': 'mmap/munmap/MAP_FIXED, descriptor lifetime and /proc counts are OS state reached through unsafe FFI; no contract in reach models them. The pure argument check (element size must divide the size) is a Buffer::new postcondition under C01.',
- 'C19': 'the subject is proc-macro output: Verus never sees macro expansions of /repo (and the expansion is izip!/closure/iterator code it rejects); Kani sees them but cannot execute a stream (DESIGN.md section 2).',
  'C20': 'whole-pipeline floating-point DSP over generated signals on both runners: compositional float reasoning plus schedulers, none in reach (see C05, C06, C11).',
 }
